@@ -645,7 +645,10 @@ func (s *DBRPNode) Format(buf *bytes.Buffer, indent string, onNewLine bool) {
 	buf.WriteString(indent)
 	buf.WriteString(TokenDBRP.String())
 	buf.WriteByte(' ')
-	buf.WriteString(s.DBRP())
+	// The names are references, written with their quotes escaped.
+	s.DB.Format(buf, "", false)
+	buf.WriteByte('.')
+	s.RP.Format(buf, "", false)
 }
 
 func (n *DBRPNode) String() string {
